@@ -269,3 +269,21 @@ def summarise(results):
             else:
                 out["twins"]["undecided"].append(f"{vid}:{verdict}")
     return out
+
+
+# positive controls: one breaking variant per property that must be reported on every run (a rule
+# whose expected count on the tree is zero must be shown to still match something)
+CONTROLS = {
+    "C01": "B-A2", "C02": "B-L1", "C03": "B-B1", "C04": "B-G3", "C05": "B-B4", "C06": "B-K2", "C07": "B-I2", "C08": "B-C1", "C09": "B-9a",
+    "C10": "B-10a", "C11": "B-F1", "C12": "B-K6", "C13": "B-K4", "C14": "B-14a", "C15": "B-K11", "C16": "B-K12", "C17": "B-17b", "C18": "B-18a", "C19": "B-19c",
+}
+
+
+def run_control(prop: str, base: Tree):
+    """-> (variant id, verdict, rules).  verdict 'violation' expected."""
+    vid = CONTROLS.get(prop)
+    v = next((x for x in VARIANTS if x[0] == vid and x[2] == prop), None)
+    if v is None:
+        return (vid, "missing", [])
+    r = _run_one((v[0], v[1], v[2], v[3], v[4], v[5], base.files))
+    return (r[0], r[3], r[4])
